@@ -64,6 +64,13 @@ def jobs(tier, seed, pool):
     nseeds = 1 if tier == 'quick' else 6
     for idx, (v, t, s) in enumerate(synth.population(nseeds, seed0=seed)):
         add(synth.synth_init(v, t, s, k=2), (idx + seed) % 2 == 0, kind='synth')
+        # the same cell after block-level edits (rebuilt reference lists, another block order, an unlinked subtree)
+        for rep in range(2):
+            r = Rng(seed, PROP, 'synth-edit', idx, rep)
+            es = [edits.edit_step(r, tier, allow=['RebuildRefArray', 'MoveBlocks', 'UnlinkFromNode', 'AddLooseBlock', 'SetNodeName']) for _ in range(r.range(1, 3))]
+            if rep == 0:
+                es.insert(0, {'op': 'RebuildRefArray', 'salt': r.below(1 << 30), 'prefer_skin': r.chance(0.5)})
+            add(synth.synth_init(v, t, s, k=2), r.chance(0.5), es, kind='synth-edited')
     # builders
     nb = 300 if tier == 'quick' else 5000
     for i in range(nb):
